@@ -1,7 +1,7 @@
 (* C19: OpenQASM 2 programs stay OpenQASM 2 and convert faithfully to OpenQASM 3.
    Statements only; proofs in Text/Qasm2.v. *)
 From Coq Require Import ZArith List Bool String.
-From Verif Require Import BGate PyVal Ast State Unroll Qasm2.
+From Verif Require Import BGate PyVal Ast State Unroll Qasm2 FixProofs.
 From Verif Require Import ModuleSpec ModuleProofs.
 Import ListNotations.
 
@@ -61,3 +61,17 @@ Theorem C19_to_qasm3_is_a_new_module w i m : nth_error w i = Some m -> sp_q2 m =
 Proof. exact (to_qasm3_is_a_new_module w i m). Qed.
 Print Assumptions C19_to_qasm3_is_a_new_module.
 
+
+(* a flat version-2 program (no gphase: the known finding C19-gphase-in-version-2-output) that is well formed is accepted by
+   the version-2 module exactly as by the version-3 one and unrolls to itself: what dumps() prints for an unrolled
+   version-2 module is, read again as version 2, the same circuit *)
+Theorem C19_wellformed_flat_version_2_program_is_a_fixpoint fuel p :
+  forallb qasm2_allowed p = true -> wf_flat env0 p = true -> (ldepth p < fuel)%nat ->
+  (exists o, run_visit true true [] fuel p = Ok o) /\
+  (exists o, run_visit true false [] fuel p = Ok o /\ o_stmts o = p).
+Proof.
+  intros Ha Hw Hf. destruct (wf_flat_is_accepted_and_a_fixpoint fuel p Hw Hf) as [(o1 & E1 & _) (o2 & E2 & Ho & _)].
+  unfold run_visit in *. rewrite Ha. cbn [negb andb] in *.
+  split; [exists o1; exact E1|exists o2; split; assumption].
+Qed.
+Print Assumptions C19_wellformed_flat_version_2_program_is_a_fixpoint.
